@@ -518,4 +518,6 @@ def check(L_h3, tier, log, samples):
 def replay_args(v):
     if v["key"].startswith("c17.ids.recv_id_panics"):
         return ("c17_recv_id_while_read_pending", [])
+    if v["key"].startswith("c17.write."):
+        return ("c17_partial_writes", [])
     return None
